@@ -183,7 +183,29 @@ func H_C16_visible(v *V) {
 	}
 }
 
+// c16Dewrap undoes the hyphenated hard breaks of the help wrapper: a '-'
+// at a line end together with the following blank line (the wrapper emits
+// one) and indentation is removed.
+func c16Dewrap(s string) string {
+	out := make([]byte, 0, len(s))
+	for i := 0; i < len(s); i++ {
+		if s[i] == '-' && i+1 < len(s) && s[i+1] == '\n' {
+			j := i + 2
+			for j < len(s) && (s[j] == ' ' || s[j] == '\n') {
+				j++
+			}
+			i = j - 1
+			continue
+		}
+		out = append(out, s[i])
+	}
+	return string(out)
+}
+
+const c16LongDefault = "https://example.org/a/very/long/path/without/any/space/in/it/index.html"
+
 type c16ND struct {
+	URL   string `long:"url" description:"DURL" default:"https://example.org/a/very/long/path/without/any/space/in/it/index.html"`
 	Host  string `long:"host" default:"localhost" description:"DHOST"`
 	Token string `long:"token" description:"DTOKEN"`
 	Port  int    `short:"p" long:"port" description:"DPORT"`
@@ -217,6 +239,7 @@ func H_C16_nodefault(v *V) {
 	v.Assert(v.Contains(out, "DTOKEN") && v.Contains(out, "DPORT") && v.Contains(out, "DHOST (default: localhost)"), "descriptions are listed, the declared default beside its description")
 	v.Assert(!v.Contains(out, "qq"+T) && !v.Contains(out, "8123") && !v.Contains(out, "zz"+T), "a value given on the command line is not presented as a default")
 	v.Assert(!v.Contains(out, "DTOKEN (default") && !v.Contains(out, "DPORT (default"), "an option without default shows none")
+	v.Assert(v.Contains(c16Dewrap(out), c16LongDefault+")"), "a default longer than the description column is shown completely (hard breaks undone)")
 }
 
 func init() {
